@@ -149,7 +149,8 @@ fn enabled(e: &PEnv, sc: &PScenario) -> Vec<PStep> {
         if comp > 0 {
             v.push(PStep::Finish(p.id, 0));
         }
-        for o in 1..=4u8 {
+        // 1 pending, 2 failed, 3 failed+warning, 4.. rpc error codes 210/205/206/207/-1
+        for o in 1..=8u8 {
             v.push(PStep::Finish(p.id, o));
         }
     }
@@ -235,7 +236,11 @@ fn exec(e: &mut PEnv, s: &PStep) {
                 1 => Ok(e.node.pay_response(&pay, "pending", false, None)),
                 2 => Ok(e.node.pay_response(&pay, "failed", false, None)),
                 3 => Ok(e.node.pay_response(&pay, "failed", true, None)),
-                _ => Err(RpcErr::new(210, "pay failed")),
+                4 => Err(RpcErr::new(210, "pay failed")),
+                5 => Err(RpcErr::new(205, "Could not find a route")),
+                6 => Err(RpcErr::new(206, "Route too expensive")),
+                7 => Err(RpcErr::new(207, "Invoice expired")),
+                _ => Err(RpcErr::new(-1, "pay failed: unknown")),
             };
             e.node.pays[pidx].running = false;
             let ci = e.calls.iter().position(|c| c.id == pay.call_id).unwrap();
@@ -448,6 +453,8 @@ pub fn scenarios_c15(thorough: bool) -> Vec<PScenario> {
     ] {
         v.push(PScenario { pay: false, initial: init, codes: vec![203, 204], max_parts: 0, faults: 0, groups });
     }
+    v.push(PScenario { pay: false, initial: vec![Pending, Pending], codes: vec![203], max_parts: 0, faults: 1, groups: vec![] });
+    v.push(PScenario { pay: false, initial: vec![Pending], codes: vec![204], max_parts: 0, faults: 2, groups: vec![] });
     if thorough {
         v.push(PScenario { pay: false, initial: vec![Pending, Pending, Pending, Pending], codes: vec![204], max_parts: 0, faults: 0, groups: vec![] });
         // F2: one read fault anywhere
